@@ -44,112 +44,82 @@ def isolation(ctx, f, cfg):
     checks = [b for b in f.impl_methods("RuleCheckSlot", "check") if ".isolation." in "." + b.path.replace("::", ".") + "."]
     if not ctx.floor("C05.anchor", "impl RuleCheckSlot::check in core::isolation", len(checks), 1):
         return
-    chk = checks[0]
-    # decision body: reachable from check, compares something derived from current_concurrency
-    reach = f.reach_bodies([chk.path])
-    cands = []
-    for p in reach:
-        b = f.bodies[p]
-        if any(callee_is(t, "ConcurrencyStat::current_concurrency") for _, t in b.calls()) and "isolation" in p:
-            cands.append(b)
-    if not ctx.floor("C05.anchor", "isolation decision body (reads current_concurrency)", len(cands), 1):
+    # the whole decision is read in the normalised view of the slot's check(): whatever private helper computes the verdict (a loop with
+    # an early return, a find_map closure, a tuple or an Option as its result) is inlined / unfolded there
+    chk = f.view(checks[0])
+    n_cc = sum(1 for _, t in chk.calls() if callee_is(t, "ConcurrencyStat::current_concurrency"))
+    if not ctx.floor("C05.anchor", "isolation decision (reads current_concurrency) reachable inside the slot's check", n_cc, 1):
         return
-    dec = cands[0]
     roles = [
         ("observed+n", ["call:ConcurrencyStat::current_concurrency", "call:SentinelInput::batch_count", "op:Add"], []),
         ("observed", ["call:ConcurrencyStat::current_concurrency"], []),
         ("limit", ["field:Rule.threshold"], ["call:ConcurrencyStat::current_concurrency"]),
         ("metric_type", ["field:Rule.metric_type"], []),
-        ("iter", ["call:Iterator::next"], []),
+        ("Concurrency", ["variant:MetricType::Concurrency"], []),
     ]
-    w = D.Walker(f, dec, make_classifier(roles))
+    base = make_classifier(roles)
 
-    def stop(bb, env):
-        return None
-    paths = w.walk(0, stop)
-    for p in paths:
-        p["extra_exprs"] = []
+    def classify(atoms, op=None):
+        if op is not None and discr_of_call(chk, op, "Iterator::next"):
+            return "iter"
+        return base(atoms, op)
+    w = D.Walker(f, chk, classify)
+    blocked_bbs = {bb for bb, t, vs, c in blocked_sites(f, chk)}
+    paths = w.walk(0, lambda bb, env: ("blocked",) if bb in blocked_bbs else None)
 
     def outcome(p, asg):
-        if p["outcome"][0] == "loop":
-            return "next-rule"
-        v = p["env"].get("_0.0")
-        if v is None:
-            return "unknown"
-        return "pass" if D.ev(v, asg) else "trip"
+        return "blocked" if p["outcome"][0] == "blocked" else "not-blocked-by-this-rule"
 
     def expected(asg):
+        if any(v for k, v in asg["opaque"].items() if "is_empty" in k):
+            return "not-blocked-by-this-rule"
         it = asg["disc"].get("iter")
-        if it is None:
+        if it == 0:   # rules exhausted
+            return "not-blocked-by-this-rule"
+        if it not in (None, 1):
             return None
-        if it == 0:   # None: rules exhausted
-            return "pass"
-        if it != 1:
-            return None
-        mt = [k for k in asg["pairs"] if "metric_type" in k]
-        if mt and asg["pairs"][mt[0]] != "=":
-            return "next-rule"
+        if any(not v for k, v in asg["opaque"].items() if k.startswith("closure-ran:") and k.rsplit(":", 1)[-1] in ("find_map", "find", "any", "position", "try_for_each", "for_each")):
+            return "not-blocked-by-this-rule"     # the search closure did not run: no rule to look at
+        mt = D.rel_of(asg, "metric_type", "Concurrency")
+        if mt is not None and mt != "=":
+            return "not-blocked-by-this-rule"
         r = D.rel_of(asg, "observed+n", "limit")
         if r is None:
             return None
-        return "trip" if r == ">" else "next-rule"
-
-    site = dec.path
+        return "blocked" if r == ">" else "not-blocked-by-this-rule"
+    site = chk.path
     n, ncon, mism = run_table(ctx, "C05.iso-decision", site, cfg, paths, outcome, expected)
     has_pair = any(("observed+n" in (l[2], l[3]) and "limit" in (l[2], l[3])) for p in paths for l in _lits(p) if l[0] == "cmp")
     ctx.instance("C05.iso-decision", site, {"rows": n, "constrained": ncon, "mismatches": mism[:4], "paths": len(paths),
                                             "compares (in_flight + batch) with rule.threshold": has_pair},
-                 "trip iff current_concurrency + batch > rule.threshold (per Concurrency rule)", not mism and has_pair and ncon > 0, cfg)
+                 "per Concurrency rule of the resource: Blocked iff current_concurrency + batch > rule.threshold", not mism and has_pair and ncon > 0, cfg)
     if not has_pair:
         ctx.violation("C05.iso-decision", "C05.iso-decision|operands",
                       "the isolation decision does not compare (current_concurrency + batch_count) with rule.threshold",
-                      dec.loc(), config=cfg)
+                      chk.loc(), config=cfg)
     elif mism:
         ctx.violation("C05.iso-decision", "C05.iso-decision|table",
                       "isolation decision differs from `in_flight + n > T`: e.g. case [%s] gives %s, expected %s" % mism[0],
-                      dec.loc(), ["case [%s]: found %s expected %s" % m for m in mism[:6]], config=cfg)
-    # gate in the slot
-    roles2 = [("passed", ["call:" + dec.path.rsplit("::", 1)[1]], []), ("resname", ["call:String::is_empty"], [])]
-    cls2 = make_classifier([("passed", ["call:" + dec.path], []), ("passed", ["call:" + dec.path.rsplit("::", 1)[-1]], [])])
-    w2 = D.Walker(f, chk, cls2)
-    blocked_bbs = {bb for bb, t, vs, c in blocked_sites(f, chk)}
-
-    def stop2(bb, env):
-        return ("blocked",) if bb in blocked_bbs else None
-    paths2 = w2.walk(0, stop2)
-
-    def outcome2(p, asg):
-        return "blocked" if p["outcome"][0] == "blocked" else "not-blocked"
-
-    def expected2(asg):
-        if asg["opaque"].get("call:String::is_empty") is True or any(v for k, v in asg["opaque"].items() if "is_empty" in k):
-            return "not-blocked"
-        k = [k for k in asg["opaque"] if k.startswith("bool:passed")]
-        if not k:
-            return None
-        return "not-blocked" if asg["opaque"][k[0]] else "blocked"
-    n, ncon, mism = run_table(ctx, "C05.iso-gate", chk.path, cfg, paths2, outcome2, expected2)
-    ctx.instance("C05.iso-gate", chk.path, {"rows": n, "constrained": ncon, "mismatches": mism[:4]},
-                 "Blocked constructed iff the checker returned passed == false", not mism and ncon > 0, cfg)
-    if mism or not ncon:
-        ctx.violation("C05.iso-gate", "C05.iso-gate|table", "isolation slot does not block exactly when its checker refuses: %s" % (mism[:1] or "gate on the checker's verdict not found"),
-                      chk.loc(), config=cfg)
+                      chk.loc(), ["case [%s]: found %s expected %s" % m for m in mism[:6]], config=cfg)
+    # the rejection names the rule that tripped (one of the resource's rules) and carries the observed in-flight count
     nb = check_block_constants(ctx, f, chk, "C05.iso-report", cfg, "Isolation",
-                               ["call:" + dec.path.rsplit("::", 1)[-1]], ["call:" + dec.path.rsplit("::", 1)[-1]], "isolation")
+                               ["call:get_rules_of_resource"], ["call:ConcurrencyStat::current_concurrency"], "isolation")
     ctx.floor("C05.iso-report", "blocked sites in isolation slot", nb, 1)
-    # the tuple returned on the tripping path carries Some(rule), Some(in-flight)
-    sl = Slicer(f, dec)
-    for bi, blk in enumerate(dec.blocks):
-        for s in blk["stmts"]:
-            if s["k"] == "assign" and s["lhs"]["l"] == 0 and not s["lhs"]["p"] and s["rv"]["k"] == "agg" and s["rv"].get("tuple"):
-                ops = s["rv"]["ops"]
-                if const_val(ops[0]) == 0:
-                    a1 = sl.of_operand(ops[1])
-                    a2 = sl.of_operand(ops[2])
-                    ok = any_atom(a1, "variant:Option::Some") and any_atom(a1, "call:Iterator::next") and any_atom(a2, "variant:Option::Some") and any_atom(a2, "call:ConcurrencyStat::current_concurrency")
-                    ctx.instance("C05.iso-report/tuple", dec.path, "refusal tuple = (false, Some(rule from the loop), Some(observed in-flight)): %s" % ok, "true", ok, cfg)
-                    if not ok:
-                        ctx.violation("C05.iso-report", "C05.iso-report|tuple", "the refusing tuple does not carry the triggering rule and the observed in-flight count", dec.loc(bi), config=cfg)
+    # the rules consulted are those of the entry's own resource; the node read is the context's
+    sl = Slicer(f, chk)
+    for bb, t in chk.calls():
+        if callee_is(t, "isolation::rule_manager::get_rules_of_resource", "get_rules_of_resource"):
+            a = sl.of_operand(t["args"][0])
+            okk = any_atom(a, "call:ResourceWrapper::name") and any_atom(a, "call:EntryContext::resource")
+            ctx.instance("C05.iso-decision/key", chk.path, sorted(short(x) for x in a if x.startswith("call:core")), "rules of ctx.resource().name()", okk, cfg)
+            if not okk:
+                ctx.violation("C05.iso-decision", "C05.iso-decision|key", "the isolation slot does not consult the rules of the entry's own resource", chk.loc(bb), config=cfg)
+        if callee_is(t, "ConcurrencyStat::current_concurrency"):
+            a = sl.of_operand(t["args"][0])
+            okn = any_atom(a, "call:EntryContext::stat_node")
+            ctx.instance("C05.iso-decision/node", chk.path, sorted(short(x) for x in a if x.startswith("call:core")), "in-flight count of ctx.stat_node()", okn, cfg)
+            if not okn:
+                ctx.violation("C05.iso-decision", "C05.iso-decision|node", "the in-flight count compared is not the one of the entry's own statistics node", chk.loc(bb), config=cfg)
 
 
 def _lits(p):
@@ -352,48 +322,47 @@ def extraction(ctx, f, cfg):
     (param_index + len, added once), anything outside 0..len means "parameter missing" (None).  Keyed: attachments[param_key.trim()]
     when present; the keyed lookup has priority over the positional one."""
     from .relfacts import RelFacts
-    lst = f.find("hotspot::traffic_shaping::Controller::<C>::extract_list_args")
-    if not lst:
-        lst = [b for p, b in f.bodies.items() if "hotspot::traffic_shaping::Controller" in p and any(callee_def(t).endswith("SentinelInput::args") for _, t in b.calls())]
-    if not ctx.floor("C05.hs-extract", "hotspot positional argument extractor (reads SentinelInput::args)", len(lst), 1):
+    # anchor: the public extractor of the controller; its private helpers (positional / keyed) are inlined in the view
+    ea = f.find("hotspot::traffic_shaping::Controller::<C>::extract_args")
+    if not ctx.floor("C05.hs-extract", "hotspot Controller::extract_args", len(ea), 1):
         return
-    b = lst[0]
+    b = f.view(ea[0])
     sl = Slicer(f, b)
     rel = RelFacts(f)
-    sites = [(bb, t) for bb, t in b.calls() if callee_def(t).endswith("Index::index") and "Vec<" in (t.get("arg_tys") or [""])[0]]
+    arg_calls = [bb for bb, t in b.calls() if callee_def(t).endswith("SentinelInput::args")]
+    att_calls = [bb for bb, t in b.calls() if callee_def(t).endswith("SentinelInput::attachments")]
+    ctx.floor("C05.hs-extract", "reads of SentinelInput::args in the extractor", len(arg_calls), 1)
+    sites = [(bb, t) for bb, t in b.calls() if (callee_def(t).endswith("Index::index") or callee_def(t).endswith("]>::get") or callee_def(t).endswith("Vec::<T, A>::get") or callee_def(t).endswith("slice::<impl [T]>::get"))
+             and ("Vec<" in (t.get("arg_tys") or [""])[0] or "[core::base::context::ParamKey]" in (t.get("arg_tys") or [""])[0]) and any_atom(sl.of_operand(t["args"][0]), "call:SentinelInput::args")]
     ok = bool(sites)
     detail = {}
     for bb, t in sites:
         at = sl.of_operand(t["args"][1])
         ops = sorted(a for a in at if a.startswith("op:"))
         calls = sorted(a.rsplit("::", 1)[-1] for a in at if a.startswith("call:") and not a.endswith(("::len", "::deref", "::args", "::input", "::as_ref", "::unwrap")))
-        bounds = rel.index_ok(b, bb, t["args"][0], t["args"][1])
-        arith_ok = set(ops) <= {"op:Add", "op:Lt"} and not [c for c in calls if c in ("rem_euclid", "abs", "wrapping_add", "wrapping_sub", "checked_rem", "min", "max", "clamp", "unsigned_abs")] and any_atom(at, "field:Rule.param_index")
+        is_get = not callee_def(t).endswith("Index::index")
+        bounds = rel.index_ok(b, bb, t["args"][0], t["args"][1]) if not is_get else ["Option-returning get()"]
+        arith_ok = set(ops) <= {"op:Add", "op:Lt", "op:Ge", "op:Gt", "op:Le"} and not [c for c in calls if c in ("rem_euclid", "abs", "wrapping_add", "wrapping_sub", "checked_rem", "min", "max", "clamp", "unsigned_abs")] and any_atom(at, "field:Rule.param_index")
         from_end = "op:Add" in ops and any(a.endswith("::len") for a in at if a.startswith("call:"))
         detail = {"index_ops": ops, "other_calls": calls, "bounds": bounds, "negative_counts_from_end": from_end}
         ok = ok and arith_ok and bool(bounds) and from_end
     ctx.instance("C05.hs-extract/positional", b.path, detail, "args[param_index] or args[param_index + len], guarded by 0 <= idx < len; otherwise None", ok, cfg)
     if not ok:
         ctx.violation("C05.hs-extract", "C05.hs-extract|positional", "the positional parameter is not args[param_index] / args[param_index + len] within 0..len (a missing parameter must yield None): %s" % detail, b.loc(), config=cfg)
-    kv = f.find("hotspot::traffic_shaping::Controller::<C>::extract_kv_args")
-    if not kv:
-        kv = [x for p, x in f.bodies.items() if "hotspot::traffic_shaping::Controller" in p and any(callee_def(t).endswith("SentinelInput::attachments") for _, t in x.calls())]
-    if kv:
-        k = kv[0]
-        s2 = Slicer(f, k)
-        idx = [(bb, t) for bb, t in k.calls() if callee_def(t).endswith("Index::index") and "HashMap<" in (t.get("arg_tys") or [""])[0]]
-        okk = bool(idx)
-        for bb, t in idx:
-            ka = s2.of_operand(t["args"][1])
-            okk = okk and any_atom(ka, "field:Rule.param_key")
-        ctx.instance("C05.hs-extract/keyed", k.path, {"lookups": len(idx)}, "attachments[rule.param_key] (guarded by contains_key: C12)", okk, cfg)
-        if not okk:
-            ctx.violation("C05.hs-extract", "C05.hs-extract|keyed", "the keyed parameter is not looked up by the rule's param_key", k.loc(), config=cfg)
-    ea = f.find("hotspot::traffic_shaping::Controller::<C>::extract_args")
-    if ea:
-        e = ea[0]
-        order = [callee_def(t).rsplit("::", 1)[-1] for bb, t in sorted(e.calls(), key=lambda x: len(e.find_path([0], [x[0]]) or [])) if callee_def(t).rsplit("::", 1)[-1] in ("extract_kv_args", "extract_list_args")]
-        oko = order[:2] == ["extract_kv_args", "extract_list_args"]
-        ctx.instance("C05.hs-extract/priority", e.path, order, ["extract_kv_args", "extract_list_args"], oko, cfg)
-        if not oko:
-            ctx.violation("C05.hs-extract", "C05.hs-extract|priority", "keyed parameters no longer take priority over positional ones: %s" % order, e.loc(), config=cfg)
+    # keyed: attachments[param_key] / attachments.get(param_key)
+    idx = [(bb, t) for bb, t in b.calls() if (callee_def(t).endswith("Index::index") or callee_def(t).rsplit("::", 1)[-1] in ("get", "get_key_value"))
+           and "HashMap<" in (t.get("arg_tys") or [""])[0] and any_atom(sl.of_operand(t["args"][0]), "call:SentinelInput::attachments")]
+    okk = bool(idx)
+    for bb, t in idx:
+        ka = sl.of_operand(t["args"][1])
+        okk = okk and any_atom(ka, "field:Rule.param_key")
+    ctx.instance("C05.hs-extract/keyed", b.path, {"lookups": len(idx)}, "attachments[rule.param_key]", okk, cfg)
+    if not okk:
+        ctx.violation("C05.hs-extract", "C05.hs-extract|keyed", "the keyed parameter is not looked up by the rule's param_key", b.loc(), config=cfg)
+    # priority: the positional list is consulted only after the keyed lookup
+    wp = must_pass(b, [0], arg_calls, att_calls) if arg_calls else None
+    oko = bool(att_calls) and bool(arg_calls) and wp is None
+    ctx.instance("C05.hs-extract/priority", b.path, {"keyed_reads": len(att_calls), "positional_reads": len(arg_calls), "positional_without_keyed_first": fmt_path(b, wp) if wp else None},
+                 "the keyed lookup comes first", oko, cfg)
+    if not oko:
+        ctx.violation("C05.hs-extract", "C05.hs-extract|priority", "keyed parameters no longer take priority over positional ones", b.loc(), config=cfg)
